@@ -164,14 +164,18 @@ def decodeBlock (h : Hdr) (cmd resn : Nat) (coff : Int) (bs : Nat) (buf : List I
       check ((acc'.take bs).all fits32)
       pure (setSlice buf 0 acc'.reverse)
 
+/-- the value stored in `offset[chan, nmean - 1]` after a block:
+    `c99_div(blocksize // 2 + sum(block), blocksize) << bitshift` (version 1: no rounding term, no shift) -/
+def blockMean (h : Hdr) (bs shift : Nat) (blk : List Int) : Int :=
+  let m := c99div ((if h.version < 2 then 0 else ((bs / 2 : Nat) : Int)) + blk.sum) bs
+  if h.version ≥ 2 then m <<< shift else m
+
 /-- new `offset[chan]` -/
 def meanUpdate (h : Hdr) (bs shift : Nat) (off buf1 : List Int) : List Int :=
   if h.nmean > 0 then
-    let sum : Int := (if h.version < 2 then 0 else ((bs / 2 : Nat) : Int)) + (slice buf1 h.nwrap (h.nwrap + bs)).sum
-    let off' := setSlice off 0 (slice off 1 h.nmean)
-    let m := c99div sum bs
-    let m' := if h.version ≥ 2 then m <<< shift else m
-    off'.set (h.nmean - 1) m'
+    -- offset[chan, :nmean-1] = offset[chan, 1:nmean]; offset[chan, nmean-1] = ...
+    (setSlice off 0 (slice off 1 h.nmean)).set (h.nmean - 1)
+      (blockMean h bs shift (slice buf1 h.nwrap (h.nwrap + bs)))
   else off
 
 def meanOk (h : Hdr) (bs shift : Nat) (buf1 : List Int) : Bool :=
@@ -392,11 +396,7 @@ def semCmd (h : Hdr) (convert : Bool) (ss : SSt) : Cmd → SSt
       | .qlpc _ coefs res => runBlock (predLpc h.lpcqoffset coefs coff) res sc.hist
       | _ => List.replicate ss.bs 0 ++ sc.hist
     let blk := (hist'.take ss.bs).reverse
-    let means' :=
-      if h.nmean > 0 then
-        let m := c99div ((if h.version < 2 then 0 else ((ss.bs / 2 : Nat) : Int)) + blk.sum) ss.bs
-        (if h.version ≥ 2 then m <<< ss.shift else m) :: sc.means
-      else sc.means
+    let means' := if h.nmean > 0 then blockMean h ss.bs ss.shift blk :: sc.means else sc.means
     let outBlk := blk.map (fixSample h.ftype ss.shift)
     let chans := ss.chans.set ss.chan ⟨hist', means'⟩
     if ss.chan + 1 = h.nchan then
